@@ -40,6 +40,9 @@ type VkIface struct {
 	Autoconf   bool   `json:"autoconf"`
 	Addrs      []IP   `json:"addrs"`
 	RS         []VkRS `json:"rs"`
+	// ReadErrAfterMS > 0: this long after the connection was opened, reads fail with a
+	// permission-class system call error (which the recovery policy treats as fatal)
+	ReadErrAfterMS int `json:"read_err_after_ms,omitempty"`
 }
 
 type VkWorld struct {
@@ -133,6 +136,7 @@ type vkNDPConn struct {
 	closed   bool
 	wake     chan struct{}
 	rs       []VkRS
+	failAt   time.Time
 }
 
 func vkDialNDP(ifi *net.Interface) (*vkNDPConn, netip.Addr, error) {
@@ -142,6 +146,9 @@ func vkDialNDP(ifi *net.Interface) (*vkNDPConn, netip.Addr, error) {
 	id := vk.conns
 	vk.mu.Unlock()
 	c := &vkNDPConn{iface: ifi.Name, id: id, opened: time.Now(), wake: make(chan struct{}, 1), rs: append([]VkRS(nil), vk.w.Ifaces[ifi.Name].RS...)}
+	if ms := vk.w.Ifaces[ifi.Name].ReadErrAfterMS; ms > 0 {
+		c.failAt = c.opened.Add(time.Duration(ms) * time.Millisecond)
+	}
 	vkLog(VkEvent{Ev: "open", Iface: ifi.Name, Conn: id})
 	return c, netip.MustParseAddr("fe80::1").WithZone(ifi.Name), nil
 }
@@ -166,6 +173,14 @@ func (c *vkNDPConn) ReadFrom() (ndp.Message, *ipv6.ControlMessage, netip.Addr, e
 			return nil, nil, netip.Addr{}, vkTimeout{}
 		}
 		wait := time.Hour
+		if !c.failAt.IsZero() {
+			if !now.Before(c.failAt) {
+				c.mu.Unlock()
+				vkLog(VkEvent{Ev: "read-error", Iface: c.iface, Conn: c.id})
+				return nil, nil, netip.Addr{}, &net.OpError{Op: "read", Net: "ip6:ipv6-icmp", Err: os.NewSyscallError("recvmsg", unix.EPERM)}
+			}
+			wait = c.failAt.Sub(now)
+		}
 		if len(c.rs) > 0 {
 			due := c.opened.Add(time.Duration(c.rs[0].AfterMS) * time.Millisecond)
 			if !now.Before(due) {
@@ -178,7 +193,9 @@ func (c *vkNDPConn) ReadFrom() (ndp.Message, *ipv6.ControlMessage, netip.Addr, e
 				}
 				return &ndp.RouterSolicitation{}, &ipv6.ControlMessage{HopLimit: hop}, netip.MustParseAddr(r.From).WithZone(c.iface), nil
 			}
-			wait = due.Sub(now)
+			if d := due.Sub(now); d < wait {
+				wait = d
+			}
 		}
 		if !c.deadline.IsZero() {
 			if d := c.deadline.Sub(now); d < wait {
